@@ -474,6 +474,9 @@ func runC31(env *sim.Env, p *sim.Plan) *sim.Result {
 			if len(tk) == 0 {
 				continue
 			}
+			if _, err := mc.GetBlock(w.Ctx, sb.Hash); err != nil {
+				tr.Fault("ticket_before_block") // reordering: the ticket overtakes the proposal
+			}
 			bvt := &block.BlockVerificationTicket{VerificationTicket: *tk[0], Round: sb.Round, BlockID: sb.Hash}
 			if st.Str(0, "") == "roundlabel" {
 				bvt.Round = sb.Round + 1
@@ -497,6 +500,7 @@ func runC31(env *sim.Env, p *sim.Plan) *sim.Result {
 			e := wire(not, "block_notarization", true).(*miner.Notarization)
 			if _, err := mc.GetBlock(w.Ctx, sb.Hash); err != nil {
 				tr.Probe("notarization_for_unknown_block")
+				tr.Fault("notarization_before_block")
 			}
 			if via == 0 {
 				if _, err := miner.NotarizationReceiptHandler(ctx, e); err != nil {
